@@ -90,6 +90,8 @@ class Relational:
         atom, pol = self.atoms[b]
         holds = (si == 0) == pol
         a = self.fn.e(atom)
+        if a is not None and a.get("m") in ("ASMJIT_ASSERT", "ASMJIT_ASSUME", "ASMJIT_NOT_REACHED"):
+            return st           # an assertion is not a check
         out = set()
         for facts, flags in st:
             if a and a["k"] == "ref" and a.get("did") in self.flags:
